@@ -534,7 +534,23 @@ def min_len(node: Node) -> int:
     return base * max(node.lo, 0)
 
 
-def defs_on_spine(root: Node) -> bool:
+def defs_in_any_order(root: Node) -> bool:
+    """True when some capture definition lies inside an $and_any_order group (instruction or operand level)."""
+    def has_def(node):
+        if node.is_def:
+            return True
+        if node.kind == "oderef":
+            return any(isinstance(x, Node) and x.is_def for v in node.extra.values() for x in v)
+        return any(has_def(c) for c in (node.children or []))
+
+    def walk(node):
+        if node.kind in ("igroup", "ogroup") and node.name == "any" and has_def(node):
+            return True
+        return any(walk(c) for c in (node.children or []))
+    return walk(root)
+
+
+def defs_on_spine(root: Node, allow_any_order=False) -> bool:
     """True when every capture definition (first occurrence in document order) lies on the
     executed-exactly-once spine: a direct child of the top-level list (or a direct operand of
     such an item) with times (1,1), not inside $or/$not/$and_any_order/any repeated element."""
@@ -561,12 +577,12 @@ def defs_on_spine(root: Node) -> bool:
             if not (dead and uses.get((node.kind[0], key), 0) == 1):
                 return False
         if node.kind == "igroup":
-            inner = here and node.name == "and"
+            inner = here and (node.name == "and" or (allow_any_order and node.name == "any"))     # every child of an any-order group executes exactly once
             return all(walk(c, inner, dead) for c in node.children)
         if node.kind == "item":
             return all(walk(c, here, dead) for c in (node.children or []))
         if node.kind == "ogroup":
-            inner = here and node.name == "and"
+            inner = here and (node.name == "and" or (allow_any_order and node.name == "any"))
             return all(walk(c, inner, dead) for c in node.children)
         if node.kind == "oderef":
             return all(walk(x, here and len(v) == 1, dead) for v in node.extra.values() for x in v if isinstance(x, Node))
